@@ -92,6 +92,26 @@ theorem C14_unknown_key_appender (ss : Bool) (akvs : Entries) (kind : Key)
   rw [he]
   rfl
 
+/-- A kind-tagged section without extra reserved keys (encoder, policy, trigger, roller) hands
+EVERY key except `kind` on to the kind's config: whatever the key is called — also a name that is
+reserved or legal in some OTHER section, such as `filters`, `appenders`, `path` — it is rejected
+there unless it is a field of that config. -/
+theorem C14_unknown_key_tagged_section (ss : Bool) (dflt : Option Key)
+    (cases : List (Key × Schema)) (kvs : Entries) (kind : Key) (fields : List Field) (k : Key)
+    (hkind : kindOf dflt kvs = .ok kind) (hcase : caseOf cases kind = some (.struct true fields))
+    (hk : k ∈ keys kvs) (hne : k ≠ c!"kind") (hn : k ∉ fieldNames fields) :
+    ∃ e, interp ss (.tagged dflt false [] cases) (.map kvs) = .error e := by
+  refine C14_unknown_key_rejected ss (Sub.body hkind hcase (Sub.refl _ _))
+    (mem_keys_without _ kvs k hk ?_) hn
+  simpa [fieldNames] using hne
+
+/-- the four sections are of that shape (no reserved key besides `kind`) -/
+theorem C14_tagged_sections_reserve_only_kind :
+    (∃ c, encoderS = .tagged (some (c!"pattern")) false [] c)
+    ∧ (∃ c, policyS = .tagged (some (c!"compound")) false [] c)
+    ∧ (∃ c, triggerS = .tagged none false [] c) ∧ (∃ c, rollerS = .tagged none false [] c) :=
+  ⟨⟨_, rfl⟩, ⟨_, rfl⟩, ⟨_, rfl⟩, ⟨_, rfl⟩⟩
+
 /-- a `failed` appender entry is reported (`Appender(name, …)`) and dropped; it cannot panic -/
 theorem C14_failed_appender_reported (name kind : Key) (es : List (Key × Typed)) (e : Err) :
     ∃ errs, appenderOutcome name (.tagged kind es (.failed e)) = (errs ++ [.appender name], .dropped) := by
@@ -624,6 +644,11 @@ example : loadStrict false sampleDoc = .errBuild := by decide
 -- an unknown key in the roller section: only that appender is dropped, and it is reported
 example : summaryOf (loadLossy true (modifyAtKeys
       [c!"appenders", c!"r", c!"policy", c!"roller", c!"zzz"] (.int 1) sampleDoc)) =
+    some ⟨4, [c!"f"], [c!"f"], [.nonexistent (c!"ghost"), .nonexistent (c!"r")], [.appender (c!"r")],
+      some 30000000000⟩ := by decide
+-- a key named `filters` in the roller section is an unknown key like any other
+example : summaryOf (loadLossy true (modifyAtKeys
+      [c!"appenders", c!"r", c!"policy", c!"roller", c!"filters"] (.seq []) sampleDoc)) =
     some ⟨4, [c!"f"], [c!"f"], [.nonexistent (c!"ghost"), .nonexistent (c!"r")], [.appender (c!"r")],
       some 30000000000⟩ := by decide
 -- an unknown key in the root section: the document is rejected
